@@ -193,6 +193,7 @@ func Sample(v interface{}) {
 // Flush writes the stats and the signature set where the driver expects them.
 func Flush() {
 	S.WallS = time.Since(started).Seconds()
+	S.Extra["eventlog_digest"] = int64(eventDigest >> 1)
 	if p := os.Getenv("VERIF_STATS"); p != "" {
 		b, _ := json.Marshal(S)
 		_ = os.WriteFile(p, b, 0o644)
@@ -247,4 +248,12 @@ func Violation(t Failer, sig, msg string, c interface{}) {
 		_ = os.WriteFile(p, b, 0o644)
 	}
 	t.Fatalf("VIOLATION-SIG %s :: %s", sig, msg)
+}
+
+var eventDigest uint64
+
+// Event folds one event into the event-log digest that the determinism
+// self-test compares across processes. It never draws and never reads a clock.
+func Event(parts ...interface{}) {
+	eventDigest = Hash64(append([]interface{}{eventDigest}, parts...)...)
 }
